@@ -28,7 +28,19 @@ LOGGER_NAMES = {"log", "logger", "logging"}
 
 
 class CallGraph:
+    def __new__(cls, repo: Repo):
+        cg = getattr(repo, "_callgraph", None)
+        if cg is not None:
+            return cg
+        cg = super().__new__(cls)
+        cg._built = False
+        repo._callgraph = cg
+        return cg
+
     def __init__(self, repo: Repo):
+        if self._built:
+            return
+        self._built = True
         self.repo = repo
         self.by_method: dict[str, list[FuncInfo]] = {}
         for f in repo.all_functions():
